@@ -476,6 +476,35 @@ package route
 //@ spec fun nfilled(ts []*Target, n int) int decreases n = n <= 0 ? 0 : nfilled(ts, n-1) + (ts[n-1] != nil ? 1 : 0)
 //@ spec fun sumN(sl byN, n int) int decreases n = n <= 0 ? 0 : sumN(sl, n-1) + sl[n-1].n
 //@
+//@ // how many of the first n ring slots hold p
+//@ spec fun countOf(ts []*Target, n int, p *Target) int decreases n = n <= 0 ? 0 : countOf(ts, n-1, p) + (ts[n-1] == p ? 1 : 0)
+//@
+//@ func lemmaCountFrame
+//@   props C04
+//@   requires n <= len(a) && n <= len(b) && forall i int :: 0 <= i && i < n ==> a[i] == b[i]
+//@   assigns nothing
+//@   ensures countOf(a, n, p) == countOf(b, n, p)
+//@ func lemmaCountFillOne
+//@   props C04
+//@   requires n <= len(a) && n <= len(b) && 0 <= j && j < n && a[j] == nil && p != nil && forall i int :: 0 <= i && i < n && i != j ==> a[i] == b[i]
+//@   assigns nothing
+//@   ensures countOf(b, n, p) == countOf(a, n, p) + (b[j] == p ? 1 : 0)
+//@ func lemmaCountAllNil
+//@   props C04
+//@   requires n <= len(ts) && p != nil && forall i int :: 0 <= i && i < n ==> ts[i] == nil
+//@   assigns nothing
+//@   ensures countOf(ts, n, p) == 0
+//@ func lemmaCountDistinctUpTo
+//@   props C04
+//@   requires wfTargets(ts) && 0 <= n && n <= i && i < len(ts)
+//@   assigns nothing
+//@   ensures countOf(ts, n, ts[i]) == 0
+//@ func lemmaCountDistinct
+//@   props C04
+//@   requires wfTargets(ts) && 0 <= i && i < n && n <= len(ts)
+//@   assigns nothing
+//@   ensures countOf(ts, n, ts[i]) == 1
+//@
 //@ func lemmaSumNFrame
 //@   props C04
 //@   requires n <= len(a) && n <= len(b) && forall i int :: 0 <= i && i < n ==> a[i] == b[i]
